@@ -366,7 +366,8 @@ def fill_query_params(query, params):
     def params_replace(node, **kwargs):
         if isinstance(node, ast.Parameter):
             value = params.pop(0)
-            return ast.Constant(value)
+            # the value takes the place of the placeholder, including its alias (SELECT ? AS k)
+            return ast.Constant(value, alias=node.alias)
 
     # put parameters into query
     query_traversal(query, params_replace)
